@@ -1,11 +1,12 @@
 (* C14/Model.v — executable models (definitions only) of
      - the series file (tsdb/series_file.go, series_partition.go, series_index.go): id <-> key map,
-       tombstones, segment log, index compaction, recovery at open;
+       tombstones, segment log and segment files, index compaction, recovery at open (index and next id);
      - the in-memory index (tsdb/index/inmem): global measurement/series maps, per-shard id sets,
        the add / drop / dirty-and-rebuild bookkeeping of meta.go;
      - the TSI index (tsdb/index/tsi1): per shard an active log of entries and immutable index files
        by level, log replay at open, log->level-1 and level->level+1 compactions, tombstones;
-     - the query layer shared by both (tsdb/index.go IndexSet, tsdb/store.go): measurement names,
+         and, separately, the lazily sorted series id list of a measurement object (meta.go);
+   - the query layer shared by both (tsdb/index.go IndexSet, tsdb/store.go): measurement names,
        tag keys, tag values, series by expression;
      - the engine's delete path (tsdb/engine/tsm1/engine.go deleteSeriesRange) on top of both.
    File formats, hash maps, bloom filters and sketches are abstracted to entry lists; the
@@ -63,10 +64,12 @@ Record sfile := mkSf {
   sf_log  : list sfent;           (* segment entries after the on-disk index's max offset, newest first *)
   sf_ins  : list (id * series);   (* in-memory idOffsetMap / keyIDMap since the last compaction, newest first *)
   sf_tomb : list id;              (* in-memory tombstones *)
-  sf_next : id                    (* next id to hand out *)
+  sf_next : id;                   (* SeriesPartition.seq: next id to hand out *)
+  sf_segs : list id               (* the segment files, newest (active) first: SeriesSegment.MaxSeriesID of each,
+                                     i.e. the highest id of its insert entries, 0 when it has none *)
 }.
 
-Definition sf_empty : sfile := mkSf [] [] [] [] 1%N.
+Definition sf_empty : sfile := mkSf [] [] [] [] 1%N [0%N].
 
 (* SeriesIndex.FindOffsetByID + key read: in-memory map first, then the on-disk map *)
 Definition sf_key (sf : sfile) (i : id) : option series :=
@@ -96,19 +99,41 @@ Definition sf_find (sf : sfile) (s : series) : option id :=
   | None => disk
   end.
 
+(* an insert entry for id i is appended to the active segment *)
+Definition seg_note (i : id) (segs : list id) : list id :=
+  match segs with
+  | [] => [i]
+  | h :: older => N.max h i :: older
+  end.
+
+(* SeriesPartition.openSegments: the segments are searched newest first for one that holds an
+   insert entry (MaxSeriesID() >= the partition's initial seq); numbering continues after it *)
+Fixpoint seg_recover (segs : list id) : id :=
+  match segs with
+  | [] => 1%N
+  | h :: older => if (1 <=? h)%N then (h + 1)%N else seg_recover older
+  end.
+
 (* SeriesPartition.CreateSeriesListIfNotExists for one key *)
 Definition sf_create (sf : sfile) (s : series) : sfile * id :=
   match sf_find sf s with
   | Some i => (sf, i)
   | None =>
       let i := sf_next sf in
-      (mkSf (sf_disk sf) (SfIns i s :: sf_log sf) ((i, s) :: sf_ins sf) (sf_tomb sf) (i + 1)%N, i)
+      (mkSf (sf_disk sf) (SfIns i s :: sf_log sf) ((i, s) :: sf_ins sf) (sf_tomb sf) (i + 1)%N
+            (seg_note i (sf_segs sf)), i)
   end.
 
 (* SeriesPartition.DeleteSeriesID *)
 Definition sf_delete (sf : sfile) (i : id) : sfile :=
   if sf_deleted sf i then sf
-  else mkSf (sf_disk sf) (SfTomb i :: sf_log sf) (sf_ins sf) (i :: sf_tomb sf) (sf_next sf).
+  else mkSf (sf_disk sf) (SfTomb i :: sf_log sf) (sf_ins sf) (i :: sf_tomb sf) (sf_next sf) (sf_segs sf).
+
+(* SeriesPartition.createSegment: the active segment is closed for writing and an empty one appended.
+   (writeLogEntry does this when the next entry does not fit; which entry that is depends on byte
+   sizes, so a history may place it anywhere) *)
+Definition sf_roll (sf : sfile) : sfile :=
+  mkSf (sf_disk sf) (sf_log sf) (sf_ins sf) (sf_tomb sf) (sf_next sf) (0%N :: sf_segs sf).
 
 (* SeriesIndex.Recover: replay the entries after the on-disk index *)
 Fixpoint sf_replay (log : list sfent) : list (id * series) * list id :=
@@ -122,13 +147,18 @@ Fixpoint sf_replay (log : list sfent) : list (id * series) * list id :=
       end
   end.
 
-Definition sf_reopen (sf : sfile) : sfile :=
+Definition sf_index_recover (sf : sfile) : sfile :=
   let (ins, tomb) := sf_replay (sf_log sf) in
-  mkSf (sf_disk sf) (sf_log sf) ins tomb (sf_next sf).
+  mkSf (sf_disk sf) (sf_log sf) ins tomb (sf_next sf) (sf_segs sf).
+
+(* SeriesPartition.Open: openSegments (next id from the segment files), then the index is recovered *)
+Definition sf_reopen (sf : sfile) : sfile :=
+  let sf1 := sf_index_recover sf in
+  mkSf (sf_disk sf1) (sf_log sf1) (sf_ins sf1) (sf_tomb sf1) (seg_recover (sf_segs sf)) (sf_segs sf).
 
 (* SeriesPartitionCompactor.Compact: every inserted id that is not deleted goes to the new
    on-disk index; its max offset is the last insert entry, so only the tombstones written
-   after the last insert are replayed afterwards. *)
+   after the last insert are replayed afterwards.  The segments stay as they are. *)
 Fixpoint leading_tombs (log : list sfent) : list sfent :=
   match log with
   | SfTomb i :: l => SfTomb i :: leading_tombs l
@@ -137,7 +167,7 @@ Fixpoint leading_tombs (log : list sfent) : list sfent :=
 
 Definition sf_compact (sf : sfile) : sfile :=
   let disk := filter (fun p => negb (sf_deleted sf (fst p))) (sf_ins sf ++ sf_disk sf) in
-  sf_reopen (mkSf disk (leading_tombs (sf_log sf)) [] [] (sf_next sf)).
+  sf_index_recover (mkSf disk (leading_tombs (sf_log sf)) [] [] (sf_next sf) (sf_segs sf)).
 
 (* every id ever inserted that can still be found (SeriesIDIterator walks the segments) *)
 Definition sf_ids (sf : sfile) : list id := dedup N.eqb (map fst (sf_ins sf ++ sf_disk sf)).
@@ -573,6 +603,55 @@ Definition tsi_reopen (sf : sfile) (t : tsi) : tsi :=
   let log := log_replay sf (t_ents t) in
   mkTsi (t_ents t) log (t_older t) (fold_sids (log :: t_older t)).
 
+(* ----- offline conversion: cmd/influx_inspect/buildtsi IndexShard ----- *)
+
+(* The index is built in a temporary directory by an Index opened with DisableFsync and
+   WithLogFileBufferSize: LogFile.FlushAndSync does nothing then, appended log entries stay in the
+   log file's bufio.Writer until it is full; LogFile.Close flushes it.  The in-memory index of the
+   log file always has every entry.  [c_nbuf] = how many of the newest entries of [t_ents] have not
+   reached the .tsl file yet.  (Byte sizes are abstracted to entry counts; the theorems hold for
+   every buffer capacity and every batch size.) *)
+Record cvt := mkCv { c_sf : sfile; c_t : tsi; c_nbuf : nat }.
+
+(* LogFile.AddSeriesList for one series; the buffer is written out when it is full *)
+Definition cv_add (bufn : nat) (c : cvt) (s : series) : cvt :=
+  let (sf', t') := tsi_add (c_sf c) (c_t c) s in
+  let nb := (c_nbuf c + (length (t_ents t') - length (t_ents (c_t c))))%nat in
+  mkCv sf' t' (if (bufn <=? nb)%nat then 0%nat else nb).
+
+(* Partition.compact, run to the end: every level is merged upwards once *)
+Definition tsi_cascade (t : tsi) : tsi := fold_left tsi_compact_level [1; 2; 3; 4]%nat t.
+
+(* one batch: Index.CreateSeriesListIfNotExists, then Partition.CheckLogFile: with a small
+   MaxLogFileSize a log file that holds any entry is swapped and compacted from its in-memory index
+   (the .tsl file and its buffer are discarded), and the level compactions follow *)
+Definition cv_batch (small : bool) (bufn : nat) (c : cvt) (ss : list series) : cvt :=
+  let c1 := fold_left (cv_add bufn) ss c in
+  if small && negb (is_nil (t_ents (c_t c1)))
+  then mkCv (c_sf c1) (tsi_cascade (tsi_compact_log (c_t c1))) 0
+  else c1.
+
+(* LogFile.Close: f.w.Flush() *)
+Definition cv_close (c : cvt) : cvt := mkCv (c_sf c) (c_t c) 0.
+
+(* opening the converted index: only what reached the files is there *)
+Definition cv_open (c : cvt) : tsi :=
+  let t := c_t c in
+  tsi_reopen (c_sf c) (mkTsi (skipn (c_nbuf c) (t_ents t)) (t_log t) (t_older t) (t_sids t)).
+
+Fixpoint chunks {A} (fuel bsz : nat) (l : list A) : list (list A) :=
+  match fuel, l with
+  | O, _ => []
+  | _, [] => []
+  | S fuel', _ => firstn bsz l :: chunks fuel' bsz (skipn bsz l)
+  end.
+
+(* IndexShard: the series keys of the shard's TSM files and WAL in batches, Compact, Wait, Close;
+   then the directory is renamed and opened as the shard's index *)
+Definition cv_index (sf : sfile) (keys : list series) (bsz : nat) (small : bool) : sfile * tsi :=
+  let c := cv_close (fold_left (cv_batch small bsz) (chunks (length keys) bsz keys) (mkCv sf tsi_empty 0)) in
+  (c_sf c, cv_open c).
+
 (* ====================================================================== *)
 (* TSI store: shards 1..n of one database, one series file                  *)
 (* ====================================================================== *)
@@ -614,17 +693,28 @@ Section TsiStore.
     let names := if is_nil from then p_meas (tsi_prims (ts_get st sh)) else from in
     fold_left (fun st m => ts_delete_keys st sh (series_keys rx (tsi_prims (ts_get st sh)) (ts_sf st) m c)) names st.
 
+  (* Store.DeleteShard (then the shard is created again, with an empty index): the ids of the
+     shard's series id set that no other shard of the database holds leave the series file *)
+  Definition ts_drop_shard (st : tstate) (sh : nat) : tstate :=
+    if valid_shard n sh then
+      let others := upd_nth (sh - 1) tsi_empty (ts_sh st) in
+      let dead := filter (fun i => negb (existsb (fun t => memb N.eqb i (t_sids t)) others)) (t_sids (ts_get st sh)) in
+      mkTs (fold_left sf_delete dead (ts_sf st)) (filter (fun p => negb (Nat.eqb (fst p) sh)) (ts_data st)) others
+    else st.
+
   Definition ts_step (st : tstate) (o : op) : tstate :=
     match o with
     | OWrite sh ss => ts_write st sh ss
     | ODelete shs from c =>
         fold_left (ts_delete_shard from c) (filter (fun sh => memb Nat.eqb sh shs) (seq 1 n)) st
     | ODropM m => fold_left (ts_delete_shard [m] None) (seq 1 n) st
+    | ODropShard sh => ts_drop_shard st sh
     | OCompactLog sh =>
         if valid_shard n sh then ts_set st sh (ts_sf st) (tsi_compact_log (ts_get st sh)) else st
     | OCompactLevel sh lvl =>
         if valid_shard n sh then ts_set st sh (ts_sf st) (tsi_compact_level (ts_get st sh) lvl) else st
     | OSfCompact => mkTs (sf_compact (ts_sf st)) (ts_data st) (ts_sh st)
+    | OSfRoll => mkTs (sf_roll (ts_sf st)) (ts_data st) (ts_sh st)
     | OSnapshot _ => st
     | OReopen =>
         let sf := sf_reopen (ts_sf st) in
@@ -642,6 +732,10 @@ Section TsiStore.
     | QTagVals m k c => ARows (dedup row_eqb (q_tagvals rx db sf m k c))
     | QSeries m c => ARows (dedup row_eqb (q_series rx db sf m c))
     | QShSeries sh m c => ARows (dedup row_eqb (q_series rx (tsi_prims (ts_get st sh)) sf m c))
+    | QConv sh bsz small m c =>
+        let keys := map snd (filter (fun p => Nat.eqb (fst p) sh) (ts_data st)) in
+        let (sf', t) := cv_index sf keys bsz small in
+        ARows (dedup row_eqb (q_series rx (tsi_prims t) sf' m c))
     | QCard => ANums (N.of_nat (length (iunions (map t_sids (ts_sh st))))
                        :: map (fun t => N.of_nat (length (t_sids t))) (ts_sh st))
     | QSfile => ARows (dedup row_eqb (map series_row (keys_of sf (filter (fun i => negb (sf_deleted sf i)) (sf_ids sf)))))
@@ -834,13 +928,29 @@ Section InmemStore.
                 (seq 1 n) (sf, ix_empty, []) in
     mkIs sf' (is_data st) ix shards.
 
+  (* Store.DeleteShard with the inmem index (then the shard is created again): for the ids no other
+     shard holds, Index.DropSeriesGlobal on the key of each, then SeriesFile.DeleteSeriesID on each.
+     No Index.Rebuild follows: the measurements that lost series stay dirty. *)
+  Definition is_drop_shard (st : istate) (sh : nat) : istate :=
+    if valid_shard n sh then
+      let others := upd_nth (sh - 1) ish_empty (is_sh st) in
+      let dead := filter (fun i => negb (existsb (fun s => memb N.eqb i (sh_sids s)) others)) (sh_sids (is_get st sh)) in
+      let ix := fold_left (fun ix i => match sf_key (is_sf st) i with
+                                       | Some k => ix_drop_series_global ix k
+                                       | None => ix
+                                       end) dead (is_ix st) in
+      mkIs (fold_left sf_delete dead (is_sf st)) (filter (fun p => negb (Nat.eqb (fst p) sh)) (is_data st)) ix others
+    else st.
+
   Definition is_step (st : istate) (o : op) : istate :=
     match o with
     | OWrite sh ss => is_write st sh ss
     | ODelete shs from c =>
         fold_left (is_delete_shard from c) (filter (fun sh => memb Nat.eqb sh shs) (seq 1 n)) st
     | ODropM m => fold_left (is_delete_shard [m] None) (seq 1 n) st
+    | ODropShard sh => is_drop_shard st sh
     | OSfCompact => mkIs (sf_compact (is_sf st)) (is_data st) (is_ix st) (is_sh st)
+    | OSfRoll => mkIs (sf_roll (is_sf st)) (is_data st) (is_ix st) (is_sh st)
     | OReopen => is_reopen st
     | _ => st
     end.
@@ -858,8 +968,56 @@ Section InmemStore.
     | QShSeries sh m c =>      (* no per-shard listing: the index is database-wide; listing restricted by the shard's id set *)
         ARows (dedup row_eqb (map series_row (keys_of sf (filter (fun i => memb N.eqb i (sh_sids (is_get st sh)))
                                                                    (series_ids rx db sf m c)))))
+    | QConv sh bsz small m c =>
+        let keys := map snd (filter (fun p => Nat.eqb (fst p) sh) (is_data st)) in
+        let (sf', t) := cv_index sf keys bsz small in
+        ARows (dedup row_eqb (q_series rx (tsi_prims t) sf' m c))
     | QCard => ANums (N.of_nat (length (iunions (map sh_sids (is_sh st))))
                        :: map (fun s => N.of_nat (length (sh_sids s))) (is_sh st))
     | QSfile => ARows (dedup row_eqb (map series_row (keys_of sf (filter (fun i => negb (sf_deleted sf i)) (sf_ids sf)))))
     end.
 End InmemStore.
+
+(* ====================================================================== *)
+(* inmem measurement: the lazily sorted series id list (meta.go)            *)
+(* ====================================================================== *)
+
+(* measurement.seriesByID (its keys) and measurement.sortedSeriesIDs.  SeriesIDs() takes the cached
+   list for valid when it is as long as the map; AddSeries appends to it when that keeps it sorted
+   and complete, DropSeries empties it. *)
+Record mcache := mkMc { mc_ids : list id; mc_sorted : list id }.
+
+Inductive mop := MAdd (i : id) | MDrop (i : id) | MList.
+
+Fixpoint ins_sorted (i : id) (l : list id) : list id :=
+  match l with
+  | [] => [i]
+  | j :: l' => if (i <=? j)%N then i :: l else j :: ins_sorted i l'
+  end.
+Definition sort_ids (l : list id) : list id := fold_right ins_sorted [] l.
+
+(* measurement.AddSeries *)
+Definition mc_add (c : mcache) (i : id) : mcache :=
+  if memb N.eqb i (mc_ids c) then c
+  else
+    let ids := i :: mc_ids c in
+    let s := mc_sorted c in
+    mkMc ids (if (length ids =? 1)%nat || ((length s =? length ids - 1)%nat && (last s 0 <? i)%N) then s ++ [i] else s).
+
+(* measurement.DropSeries *)
+Definition mc_drop (c : mcache) (i : id) : mcache :=
+  if memb N.eqb i (mc_ids c) then mkMc (sremove N.eqb i (mc_ids c)) [] else c.
+
+(* measurement.SeriesIDs *)
+Definition mc_list (c : mcache) : mcache * list id :=
+  if (length (mc_sorted c) =? length (mc_ids c))%nat then (c, mc_sorted c)
+  else let s := sort_ids (mc_ids c) in (mkMc (mc_ids c) s, s).
+
+Definition mc_step (c : mcache) (o : mop) : mcache :=
+  match o with
+  | MAdd i => mc_add c i
+  | MDrop i => mc_drop c i
+  | MList => fst (mc_list c)
+  end.
+
+Definition mc_run (ops : list mop) : mcache := fold_left mc_step ops (mkMc [] []).
